@@ -145,10 +145,21 @@ func C08(r *explore.Run) {
 		}
 		// the same sentence in uniform re-spellings (acceptance must not depend on single blanks)
 		if c.Cost() <= 2 {
-			for _, tr := range respellTrivia {
+			// four uniform gap spellings, and keywords / pseudo keywords in lower and mixed case
+			for ri := 0; ri < len(respellTrivia)+2; ri++ {
+				tr, cs := " ", 0
+				if ri < len(respellTrivia) {
+					tr = respellTrivia[ri]
+				} else {
+					cs = ri - len(respellTrivia) + 1
+				}
 				var b strings.Builder
 				for i, t := range s.Src {
-					b.WriteString(t.Text)
+					tx := t.Text
+					if cs != 0 && (t.Class == grammar.KW || t.Class == grammar.PKW) {
+						tx = caseVariant(tx, cs)
+					}
+					b.WriteString(tx)
 					if i+1 < len(s.Src) && !t.NoGap {
 						b.WriteString(tr)
 					}
